@@ -5,7 +5,7 @@ CONSTANTS
   Catalog <- Cat16
   MaxR = 2
   KVals <- K3
-  Orders <- OrdOne
+  Orders <- OrdTwo
   FullOrder = TRUE
   Points <- Pts1
   Feeds <- FdRev
@@ -16,6 +16,8 @@ CONSTANTS
   PForms <- PfAll
   Containers <- CtList
   OvKVals <- Ov3
+  SForms <- SfAll
+  KeySortSeq <- SortId
 INVARIANT PolyAgreesWithFold
 INVARIANT PermutationInvariant
 INVARIANT InactiveNotInExponent
